@@ -32,6 +32,8 @@ CHECK = {
       G('addr4-B-rootsleft-d8', 'base', 'naddr=4', 'prop=C06', 'residues=B', 'rootsleft=1', 'depth=8'), G('addr3-rootsleft-asan', 'asan', 'naddr=3', 'prop=C06', 'rootsleft=1'),
       # a destructor allocates a root at the address of an object released earlier (single ownership only)
       G('own3-reuse', 'base', 'mode=own', 'n=3', 'reuse=1'), G('own4-reuse', 'base', 'mode=own', 'n=4', 'reuse=1'), G('addr3-reuse', 'base', 'naddr=3', 'prop=C06', 'reuse=1'), G('addr4-reuse-d8', 'base', 'naddr=4', 'prop=C06', 'reuse=1', 'depth=8'), G('own3-reuse-asan', 'asan', 'mode=own', 'n=3', 'reuse=1'),
+      # a destructor appends a new managed record under a root (highest arena address) and keeps it
+      G('addr3-keep', 'base', 'naddr=3', 'prop=C06', 'keep=1'), G('addr4-keep-d8', 'base', 'naddr=4', 'prop=C06', 'keep=1', 'depth=8'),
       # destructors that allocate collector-managed temporaries and delete them again (1, 2 or 3 each)
       G('addr3-temps2', 'base', 'naddr=3', 'prop=C06', 'temps=2'), G('addr3-temps1-asan', 'asan', 'naddr=3', 'prop=C06', 'temps=1'),
       G('own3-temps2', 'base', 'mode=own', 'n=3', 'temps=2'), G('own3-temps3-asan', 'asan', 'mode=own', 'n=3', 'temps=3'), G('exit4-temps2', 'base', 'mode=exit', 'depth=4', 'temps=2'),
@@ -43,6 +45,7 @@ CHECK = {
       G('own3', 'base', 'mode=own', 'n=3'), G('own4', 'base', 'mode=own', 'n=4'), G('own4-asan', 'asan', 'mode=own', 'n=4'), G('exit6', 'base', 'mode=exit', 'depth=6'), G('exit5-asan', 'asan', 'mode=exit', 'depth=5'),
       G('addr4-B', 'base', 'naddr=4', 'prop=C06', 'residues=B'), G('addr4-B-rootsleft', 'base', 'naddr=4', 'prop=C06', 'residues=B', 'rootsleft=1'), G('addr5-B-rootsleft', 'base', 'naddr=5', 'prop=C06', 'residues=B', 'rootsleft=1', 'deadline=600'), G('addr4-rootsleft-asan', 'asan', 'naddr=4', 'prop=C06', 'rootsleft=1'),
       G('own4-reuse', 'base', 'mode=own', 'n=4', 'reuse=1'), G('addr4-reuse', 'base', 'naddr=4', 'prop=C06', 'reuse=1'), G('addr4-B-reuse', 'base', 'naddr=4', 'prop=C06', 'reuse=1', 'residues=B'), G('own4-reuse-asan', 'asan', 'mode=own', 'n=4', 'reuse=1'),
+      G('addr4-keep', 'base', 'naddr=4', 'prop=C06', 'keep=1'), G('addr4-B-keep', 'base', 'naddr=4', 'prop=C06', 'keep=1', 'residues=B'),
       G('addr4-temps2', 'base', 'naddr=4', 'prop=C06', 'temps=2'), G('addr4-temps1', 'base', 'naddr=4', 'prop=C06', 'temps=1'), G('addr3-temps3-asan', 'asan', 'naddr=3', 'prop=C06', 'temps=3'),
       G('own4-temps2', 'base', 'mode=own', 'n=4', 'temps=2'), G('own3-temps3-asan', 'asan', 'mode=own', 'n=3', 'temps=3'), G('exit5-temps2', 'base', 'mode=exit', 'depth=5', 'temps=2'), G('exit5-temps1', 'base', 'mode=exit', 'depth=5', 'temps=1'),
     ],
